@@ -413,3 +413,21 @@ class CallView:
 def apply_contract(ip, contract, args, kwargs):
     """Use a callee by contract: prove requires, havoc the frame, assume ensures."""
     return contract.apply(ip, args, kwargs)
+
+
+def footprint_term(ctx, heap):
+    """The heap term a tree-recursive spec function is applied to: temporaries owned by the function under
+    verification (its argument list, objects it allocated) are masked back to their pre-state (see
+    contracts.value_c.footprint_heap)."""
+    from .core import HeapSort
+    base = ctx.ghost.get('pre_heap')
+    if base is None:
+        return heap.term()
+    h0, temps = base
+    r = z3.Int('r!fp')
+    keep = z3.And(r < h0.alloc, *[r != t for t in temps])
+
+    def mask(cur, old):
+        return z3.Lambda([r], z3.If(keep, z3.Select(cur, r), z3.Select(old, r)))
+    return HeapSort.mkheap(mask(heap.LEN, h0.LEN), mask(heap.ELS, h0.ELS), mask(heap.HAS, h0.HAS), mask(heap.VAL, h0.VAL),
+                           mask(heap.NK, h0.NK), mask(heap.KEY, h0.KEY))
